@@ -46,6 +46,8 @@ where
 pub(in super::super) struct BlockReader<'r, 's, R> {
 	current_block_len: usize,
 	n_read: usize,
+	/// Whether the end of the array/map (the block of length zero) has been read
+	finished: bool,
 	reader: &'r mut DeserializerState<'s, R>,
 	allowed_depth: AllowedDepth,
 	/// Represents whether we were hinted deserialize_ignored_any. If yes, we
@@ -62,6 +64,7 @@ impl<'r, 's, R> BlockReader<'r, 's, R> {
 			reader,
 			current_block_len: 0,
 			n_read: 0,
+			finished: false,
 			allowed_depth,
 			ignored: hinted_ignored,
 		}
@@ -74,7 +77,10 @@ impl<'r, 's, R> BlockReader<'r, 's, R> {
 			None => {
 				let new_len = read_block_len(self.reader, self.ignored)?;
 				match new_len {
-					None => return Ok(false),
+					None => {
+						self.finished = true;
+						return Ok(false);
+					}
 					Some(new_len) => {
 						let l = new_len.get();
 						let n_read = self.n_read.saturating_add(l);
@@ -97,6 +103,24 @@ impl<'r, 's, R> BlockReader<'r, 's, R> {
 pub(in super::super) struct ArraySeqAccess<'r, 's, R> {
 	pub(in super::super) block_reader: BlockReader<'r, 's, R>,
 	pub(in super::super) elements_schema: &'s SchemaNode<'s>,
+}
+impl<'de, R: ReadSlice<'de>> ArraySeqAccess<'_, '_, R> {
+	/// Hands the array to the visitor, then makes sure that it has been read up to its end:
+	/// a visitor that takes a fixed number of elements (a tuple, a `[T; N]`) does not ask for
+	/// the element after its last one, which would leave the end of the array (and any
+	/// additional element) in the input, to be taken for what follows the array.
+	pub(in super::super) fn visit<V>(mut self, visitor: V) -> Result<V::Value, DeError>
+	where
+		V: Visitor<'de>,
+	{
+		let value = visitor.visit_seq(&mut self)?;
+		if !self.block_reader.finished && self.block_reader.has_more()? {
+			return Err(DeError::new(
+				"Array has more elements than what we are deserializing into expects",
+			));
+		}
+		Ok(value)
+	}
 }
 impl<'de, R: ReadSlice<'de>> SeqAccess<'de> for ArraySeqAccess<'_, '_, R> {
 	type Error = DeError;
